@@ -124,6 +124,8 @@ pub struct Stats {
     pub inlined: Vec<String>,
     pub models: Vec<String>,
     pub uninterp: Vec<String>,
+    /// discriminant terms of field-less enums with few variants: the values the discriminant can take
+    pub discr_values: std::collections::HashMap<T, Vec<u128>>,
 }
 
 pub struct Cx<'tcx> {
@@ -157,7 +159,7 @@ impl<'tcx> Cx<'tcx> {
             dump: std::env::var("MIRSUM_DUMP").ok(),
             tcx,
             tenv,
-            stats: std::cell::RefCell::new(Stats { steps: 0, leaves: 0, fresh: 0, inlined: vec![], models: vec![], uninterp: vec![] }),
+            stats: std::cell::RefCell::new(Stats { steps: 0, leaves: 0, fresh: 0, inlined: vec![], models: vec![], uninterp: vec![], discr_values: Default::default() }),
         }
     }
     /// crate-qualified definition path, stable across re-exports
@@ -1450,6 +1452,19 @@ impl<'tcx> Cx<'tcx> {
             }
         }
         let (ta, tb) = (self.to_term(st, a), self.to_term(st, b));
+        // the size of a type with at least one scalar of a parameter type is not zero (a scalar type has more than one value, so
+        // it is not zero-sized): `size_of::<M>() / size_of::<S>()` does not divide by zero
+        if let (V::Sym(_), V::Int(0)) = (a, b) {
+            if let terms::Term::App(f, x) = terms::get(ta) {
+                if f == "size_leaves" && x.len() == 2 && !matches!(terms::get(x[0]), terms::Term::CInt(ref n) if n == "0") {
+                    match op {
+                        Eq | Le => return V::Int(0),
+                        Ne | Gt => return V::Int(1),
+                        _ => {}
+                    }
+                }
+            }
+        }
         if let (V::Sym(_), V::Sym(_)) = (a, b) {
             if let Some(r) = Self::layout_cmp(op, ta, tb) {
                 return V::Int(r as u128);
@@ -1783,6 +1798,15 @@ impl<'tcx> Cx<'tcx> {
                         if let Some(&(_, k)) = st.decided.iter().find(|(x, _)| *x == d) {
                             return Ok(V::Int(k));
                         }
+                        // a field-less enum with few variants: remember which values the discriminant can take (`key as u8`)
+                        if let ty::Adt(def, _) = ety.kind() {
+                            if def.is_enum() && def.variants().len() <= 8 && def.variants().iter().all(|v| v.fields.is_empty()) {
+                                let vals: Vec<u128> = def.variants().indices().filter_map(|vi| ety.discriminant_for_variant(self.tcx, vi).map(|x| x.val)).collect();
+                                if vals.len() == def.variants().len() {
+                                    self.stats.borrow_mut().discr_values.insert(d, vals);
+                                }
+                            }
+                        }
                         Ok(V::Sym(d))
                     }
                     // optimised library MIR reads the discriminant of a dead local only to `assume` it; an unknown
@@ -2028,7 +2052,36 @@ impl<'tcx> Cx<'tcx> {
                         let (pl, rv) = &**b;
                         // `flag as usize` of an undecided flag (an index into a two-entry table of results): the two values are
                         // two paths, exactly as if the code had branched on the flag
-                        if let Rvalue::Cast(CastKind::IntToInt, op, _) = rv {
+                        if let Rvalue::Cast(CastKind::IntToInt, op, cty) = rv {
+                            // `key as u8` for a field-less enum whose variant is undecided: one path per variant
+                            if let Ok(V::Sym(t)) = self.eval_operand(&mut st, op) {
+                                let vals = self.stats.borrow().discr_values.get(&t).cloned();
+                                if let Some(vals) = vals {
+                                    let sty = self.subst(&fr, op.ty(fr.body, self.tcx));
+                                    let dty = self.subst(&fr, *cty);
+                                    let p = match self.eval_place(&mut st, pl) {
+                                        Ok(p) => p,
+                                        Err(e) => return self.top(e, stmt.source_info.span),
+                                    };
+                                    let (sb, ssigned) = self.int_bits(sty);
+                                    let (db, _) = self.int_bits(dty);
+                                    let mut outs = vec![];
+                                    for val in vals {
+                                        if st.excluded.iter().any(|(d, v)| *d == t && *v == val) {
+                                            continue;
+                                        }
+                                        let mut s1 = st.clone();
+                                        s1.decided.push((t, val));
+                                        let wide = if ssigned { Self::sext(sb, val) as u128 } else { val };
+                                        if let Err(e) = self.write(&mut s1, &p, V::Int(Self::trunc(db, wide))) {
+                                            return self.top(e, stmt.source_info.span);
+                                        }
+                                        s1.frames.last_mut().unwrap().skip = si + 1;
+                                        outs.push((val, self.run_from(&mut s1, base)));
+                                    }
+                                    return Outcome::Switch(t, outs, None);
+                                }
+                            }
                             if op.ty(fr.body, self.tcx).is_bool() {
                                 if let Ok(V::Sym(t)) = self.eval_operand(&mut st, op) {
                                     let known = st.decided.iter().find(|(d, _)| *d == t).map(|(_, v)| *v);
